@@ -48,24 +48,24 @@ Example ex_pow : map (fun p => go_pow (fst p) (snd p)) [(VNum 1, VNaN); (VNum (-
 Proof. vm_compute. reflexivity. Qed.
 
 (* the widened grammar:
-   { readonly a?: A.B<T>; [k: string]: typeof x.y; m<const P extends T = "s", in out Q>(this: T, ...r: U[]): r is V, -readonly [K in keyof T as `p${K}`]+?: T[K] }
+   { readonly a?: A.B<T>; [k: string]: typeof x.y; m<const P extends T = "s", in out Q>(this: T, {a, "s": [, b, ...c], ...d}: any, ...r: U[]): r is V, -readonly [K in keyof T as `p${K}`]+?: T[K] }
    | (abstract new <P extends keyof T>(x?: import("m").C) => void) | [first: T, second?: U] | (T extends infer U extends any[] ? U : never) *)
 Definition ex_wide : ty :=
   TUnion (TUnion (TUnion
     (TObj [TMProp [2; 120] true (TRef 100 [101] [TRef 103 [] []]) 0;
            TMIndex [] 105 TPrim (TTypeof 109 [110] []) 0;
-           TMMeth [121] false [TTParam [0] 107 true true (TRef 103 [] []) (TLit KStr); TTParam [1; 2] 108 false false TPrim TPrim] [TParam false (-1) false true (TRef 103 [] []); TParam true 122 false true (TArr (TRef 104 [] []))] true
+           TMMeth [121] false [TTParam [0] 107 true true (TRef 103 [] []) (TLit KStr); TTParam [1; 2] 108 false false TPrim TPrim] [TParam false (PId (-1)) false true (TRef 103 [] []); TParam false (PObj [PShort 125; PProp (-2) (PArr 1 [PId 126; PRest (PId 127)]); PObjRest 128]) false true TPrim; TParam true (PId 122) false true (TArr (TRef 104 [] []))] true
                   (TPred 122 (TRef 106 [] [])) 1;
            TMMapped 2 [2] 105 (TKeyof false (TRef 103 [] [])) true (TTemplate [TRef 105 [] []]) 1 true
                     (TIdx (TRef 103 [] []) (TRef 105 [] [])) 2])
-    (TParen (TFn 2 [TTParam [] 107 true false (TKeyof false (TRef 103 [] [])) TPrim] [TParam false 109 true true (TImport false [102] [])] (TLit KVoid))))
+    (TParen (TFn 2 [TTParam [] 107 true false (TKeyof false (TRef 103 [] [])) TPrim] [TParam false (PId 109) true true (TImport false [102] [])] (TLit KVoid))))
     (TTuple [TElem false 123 false false (TRef 103 [] []); TElem false 124 true false (TRef 104 [] [])]))
     (TParen (TCond (TRef 103 [] []) (TInferC 104 (TArr TPrim)) (TRef 104 [] []) TPrim)).
 Example ex_wide_wf : wfb ex_wide = true /\ lvl_ok ex_wide LLowest = true.
 Proof. vm_compute. auto. Qed.
 Example ex_wide_skip : skip_type LLowest fl0 (R true ex_wide [(KSemi,false)]) = Ok [(KSemi,false)].
 Proof. vm_compute. reflexivity. Qed.
-Example ex_wide_len : length (R true ex_wide []) = 123%nat.
+Example ex_wide_len : length (R true ex_wide []) = 142%nat.
 Proof. vm_compute. reflexivity. Qed.
 (* return position: asserts this is T *)
 Example ex_ret : wf_ret_with wfb (TAsserts (-1) true (TRef 103 [] [])) = true /\
